@@ -42,7 +42,7 @@ CLAIMED = {
  "C14": dict(
    technique="apk-tools version.c token machine transcribed in TLA+ (Apk.tla) plus the property's own reading as a second TLA+ oracle; universe replay + TLC trace validation; spec audited by apk-tools' version.data on every run",
    text="Apk.tla holds next_token/get_token/apk_version_compare as a token machine and, separately, the order the property describes; a pair is claimed when both agree (equal component counts, well-formed grammar, missing revision = -r0). TLC judges the real alpine.Compare matrix over the TLC-generated universe and seeded versions. apk-tools' own 708-line table shipped in the repository is replayed against Apk.tla on every run (disagreement = exit 2).",
-   note="Trusted: TLC; Apk.tla (0 disagreements with version.data); pairs where the token machine and the property's reading differ are not claimed.",
+   note="Trusted: TLC; Apk.tla (0 disagreements with version.data); pairs where the token machine and the property's reading differ are not claimed. A well-formed text (every number below 10^9) that the parser rejects is reported (in-scope-rejected), as are dpkg-valid texts in C10, texts with a version part in C11 and conventional shapes in C12.",
    ref="DESIGN.md 5-C14"),
  "C02": dict(
    technique="range semantics (Den over AND/OR groups) and per-ecosystem comparator syntax in TLA+ (Range.tla); TLC-explored structure generator (RangeGen.tla) renders range texts; real NewVersionRange/Contains replayed; TLC trace validation contains = Den(signs of real Compare)",
@@ -67,7 +67,7 @@ CLAIMED = {
  "C04": dict(
    technique="VERS denotation (union of intervals) and the normative sweep as a TLA+ step machine, model-checked by TLC for every well-formed range and probe position (sweep = Den); the same exploration emits the ranges, rendered from strictly increasing version chains of 11 schemes and evaluated by the real vers.Contains; TLC trace validation result = Den",
    text="Design level: Vers.tla walks the position-sorted constraints as a state machine; TLC checks SweepIsDen and SingleIsComparator over all well-formed ranges with up to K constraints (K=4 quick, K=6 thorough: 1.8M states) and every probe position. Conformance: every explored range, rendered per scheme from 17-version chains whose strict monotonicity under the real Compare is re-checked on each run (else exit 2), is evaluated at every probe position by the real vers.Contains; TLC judges no error and result = VDen; vers:<scheme>/* contains everything; pypi pre-/dev-release probes are excluded.",
-   note="Trusted: TLC; bound/probe versions are the chains of Vers.tla (other versions: C02/C17); K=8 only by seeded sampling in the thorough tier.",
+   note="Trusted: TLC; bound/probe versions are three families of chains in Vers.tla (plain; other spellings - build metadata, prefixes, epochs, case, pypi pre-releases and local labels; anchored at the zero version with free-form pre-release words), other versions: C02/C17; K=8 only by seeded sampling in the thorough tier.",
    ref="DESIGN.md 5-C04"),
  "C06": dict(
    technique="life-cycle contract in TLA+ (Api.tla, model-checked) and a TLC-explored string-builder machine over a syntax alphabet (Totality.tla) as exhaustive input generator; every string replayed into all 40 parsers, vers.Contains in every role and the real CLI; TLC trace validation of the outcome codes and the quadratic time budget",
